@@ -136,6 +136,27 @@ def _slice_task(task):
     return acc
 
 
+def rare_derivation_inputs():
+    """frozen passwords / seeds whose HKDF expansion has leading/trailing 00 or ff octets (for every expansion length in use), and
+    Ed25519 seeds whose try-and-increment search carries across an octet boundary (tools/make_rare_derivations.py)"""
+    import json, os
+    p = os.path.join(os.path.dirname(os.path.dirname(os.path.abspath(__file__))), "ref", "rare_derivations.json")
+    try:
+        d = json.load(open(p))
+    except Exception:
+        return []
+    out = []
+    for kind in ("pw", "seed"):
+        for n, classes in sorted(d.get(kind, {}).items()):
+            for c, s in sorted(classes.items()):
+                if s.encode() not in out:
+                    out.append(s.encode())
+    for c, s in sorted(d.get("ed_carry", {}).items()):
+        if s.encode() not in out:
+            out.append(s.encode())
+    return out
+
+
 def _constants(acc):
     g = golden.load()
     for name, mns in g["MNS"].items():
@@ -184,6 +205,10 @@ def run(tier, seed):
                 tasks.append(("small", (name, "both", ch)))
     items = [b""] + [bytes([i]) for i in range(256)] + [bytes([(7 * n + i) % 256 for i in range(n)]) for n in LENGTHS] + \
             [b"M", b"N", b"symmetric", b"Symmetric", b"M\x00", b"password", b"\x00" * 64, b"\xff" * 64]
+    rare = rare_derivation_inputs()
+    for name in (b["int_toys"][:2] + b["ed_toys"][:1] + T.SHIPPED):
+        for ch in core.chunks(rare, 12 if name in T.SHIPPED else 200):
+            tasks.append(("slice", (name, "both", ch)))
     bnd = [b for b in C.boundary_strings() if b not in items]
     for name in T.SHIPPED:
         if not quick or name in ("ParamsEd25519", "Params1024"):
